@@ -233,7 +233,7 @@ theorem push_refs_inv (σ : St) (r : Ref) (i : Inv σ)
       exact hnoh n hxn hl d
 
 /-- a read in an expression position -/
-theorem read_step (σ : St) (t : Tok) : Step σ (σ.read t) := by
+theorem read_step (σ : St) (t : Tok) (root : Bool := false) : Step σ (σ.read t true root) := by
   unfold St.read
   split
   · exact Step.refl σ
